@@ -1,7 +1,8 @@
 """C18 — the exported shell script reproduces exactly the bytes that were sent.
 
 K: ShellScriptBinaryIOHelper.write_to_shellscript (and the public GraphicsTerminal paths with
-   shellscript_out) vs Tup.Model.ShellExport through drv_sh: the script text, byte for byte.
+   shellscript_out, on the constructed object and on objects derived from it with clone_with /
+   attribute assignment) vs Tup.Model.ShellExport through drv_sh: the script text, byte for byte.
 F: the script is run by the real /bin/sh (dash; bash too where the case asks for it) and by the
    independent specification Tup.Spec.Sh (the evaluator the theorems are about); stdout must be
    exactly the data, with and without the comment.  Spec.Sh itself is validated against dash and
@@ -702,13 +703,19 @@ def run(ctx: Ctx):
                 "odd/non-canonical/over-padded base64; the 1.05 rule boundary for each multiple of 20; lengths around 2 and 172; comments of "
                 "lengths around the 80-column switch with 1-4 byte characters, quotes, '#', '$(', trailing backslash; random binary, printable, "
                 "base64 of both (some damaged), wrapped like graphics commands; every string over {A,Q,R,=,/} up to length 5 (thorough 7), "
-                "over {Q,U,F,J,=} to length 5 (thorough 8) and over {Q,F,=} to length 8 (thorough 10); public GraphicsTerminal paths with a logging stream. "
+                "over {Q,U,F,J,=} to length 5 (thorough 8) and over {Q,F,=} to length 8 (thorough 10); public GraphicsTerminal paths with a logging stream; "
+                "the same paths on DERIVED terminals sharing the streams and the script: clone_with(num_tmux_layers / force_placeholders / "
+                "force_direct_transmission), clones of clones, num_tmux_layers / max_command_size / force_* assigned after construction, operations on "
+                "the derived object and on the original in alternation (grid: layers before x after in {0,1,2} x 5 ways of deriving x 2 chunk sizes; random "
+                "histories over up to 4 objects), file transmissions of existing files (sent by name or inlined by a force_direct_transmission object). "
                 "distinct = canonical JSON; non-trivial = every case except the float table and hand-written spec scripts")
     ctx.assumptions += [
         "comments contain no newline (the library's callers never pass one; a newline would start a new script line) and no NUL/lone surrogates",
         "`sh` is dash (every shell-run case) and bash (a tenth of the cases and all small families); other shells are not exercised",
         "base64(1) is GNU coreutils: `-w0` disables wrapping",
         "get_cursor_position is deliberately not logged to the script and is not part of the reproduced bytes",
+        "derived terminals (clone_with) share the output streams and the script stream with the original: 'the bytes the library wrote' is the "
+        "concatenation of what all of them wrote, in order; placements stay virtual (a classic placement on a force_placeholders terminal queries the cursor)",
     ]
     try:
         corpus_dir = Path(__file__).resolve().parent.parent / "corpus" / "C18"
